@@ -416,7 +416,7 @@ func c01Specs(thorough bool) []mb.Msg {
 			)
 		}
 	}
-	for _, src := range []string{"reader", "readseeker", "buffer", "reader@", "readseeker@"} {
+	for _, src := range []string{"reader", "readseeker", "buffer", "reader@", "readseeker@", "readseeker+"} {
 		for _, fe := range []string{"", "8bit"} { // (QP for files exists only as a field of hand-made File structs)
 			for ne := 0; ne <= 2; ne++ {
 				for na := 0; na <= 2; na++ {
@@ -605,7 +605,7 @@ func init() {
 			for _, n := range c01Paths {
 				r.Reached("reached/faithful/via=" + n)
 			}
-			r.Reached("reached/faithful/file-source=reader", "reached/faithful/file-source=readseeker", "reached/faithful/files-from-a-recycled-msg=1", "reached/faithful/files-from-a-recycled-msg=2", "reached/faithful/attributes-through-setters=1", "reached/faithful/attributes-through-setters=2", "reached/faithful/file-source=buffer", "reached/faithful/file-source=reader@", "reached/faithful/file-source=readseeker@", "reached/faithful/file-source=ttpl", "reached/faithful/file-source=htpl",
+			r.Reached("reached/faithful/file-source=reader", "reached/faithful/file-source=readseeker+", "reached/faithful/file-source=readseeker", "reached/faithful/files-from-a-recycled-msg=1", "reached/faithful/files-from-a-recycled-msg=2", "reached/faithful/attributes-through-setters=1", "reached/faithful/attributes-through-setters=2", "reached/faithful/file-source=buffer", "reached/faithful/file-source=reader@", "reached/faithful/file-source=readseeker@", "reached/faithful/file-source=ttpl", "reached/faithful/file-source=htpl",
 				"reached/faithful/part-via=string", "reached/faithful/part-via=tpl", "reached/faithful/part-via=setcontent")
 		},
 		Replay: func(r *vf.Run, kase json.RawMessage) {
